@@ -53,6 +53,37 @@ def shapes_upto(n, name="a"):
     return out
 
 
+def chain(n, name="a"):
+    """a single path of n nodes"""
+    g = plain(name)
+    cur = g
+    for _ in range(n - 1):
+        c = plain(name)
+        cur["children"].append(c)
+        cur = c
+    return g
+
+
+def star(n, name="a", grandchild_under=None):
+    """a root with n children (optionally one grandchild below child number grandchild_under)"""
+    g = plain(name)
+    g["children"] = [plain(name) for _ in range(n)]
+    if grandchild_under is not None:
+        g["children"][grandchild_under]["children"].append(plain(name))
+    return g
+
+
+def scale_shapes():
+    """shapes beyond the exhaustive bound: deep, wide, and wide-and-deep"""
+    out = [("chain-13", chain(13)), ("chain-30", chain(30)), ("chain-70", chain(70)), ("star-12+1", star(12, grandchild_under=1)),
+           ("star-40", star(40)), ("star-300", star(300))]
+    g = star(17)
+    for c in g["children"]:
+        c["children"] = [plain("a") for _ in range(3)]
+    out.append(("star-17x3", g))
+    return out
+
+
 def assign_ids(g, prefix="n"):
     for i, (path, node) in enumerate(walk(g)):
         node["id"] = f"{prefix}{i}"
